@@ -133,9 +133,19 @@ def r3(ctx):
         raise AnalysisBroken('C18.R3: no file open found in MainLoop::executeGet')
     # uri variable: local initialised from args[...]
     uri = None
-    for nid, d, rhs, op, lhs in fn.assignments():
-        if op == 'init' and rhs is not None and 'args' in fn.key(rhs) and d and d.endswith(':uri'):
-            uri = d
+    uname = None
+    for c in fn.all('CXXMemberCallExpr'):
+        v = fn.nodes[c]
+        if (v.get('callee') or '').endswith('::find') and v.get('args') and fn.key(v['args'][0]) == '".."' and 'obj' in v:
+            uname = fn.key(v['obj'])
+            uri = fn.ref_decl(v['obj'])
+    if uri is None:
+        # no ".." test at all: take the local initialised from the request arguments
+        for nid, d, rhs, op, lhs in fn.assignments():
+            if op == 'init' and rhs is not None and fn.key(rhs).startswith(fn.params[0]['name'] + '[') and d:
+                uri = d
+                uname = d.split(':')[-1]
+                break
     if uri is None:
         raise AnalysisBroken('C18.R3: URI variable not recognised in executeGet')
     tainted, expr_tainted = fn.taint(lambda f, x: f.nodes[x]['k'] == 'DeclRefExpr' and f.nodes[x].get('decl') == uri)
@@ -149,9 +159,9 @@ def r3(ctx):
         atoms = fn.atoms(o)
         ks = set((a[0], a[1]) for a in atoms)
         need = {
-            'no ".."': ('(uri.find("..",#0) == #18446744073709551615)', True),
-            'no "//"': ('(uri.find("//",#0) == #18446744073709551615)', True),
-            'leading "/"': ('(uri[#0] == #47)', True),
+            'no ".."': ('(%s.find("..",#0) == #18446744073709551615)' % uname, True),
+            'no "//"': ('(%s.find("//",#0) == #18446744073709551615)' % uname, True),
+            'leading "/"': ('(%s[#0] == #47)' % uname, True),
         }
         missing = [nm for nm, a in need.items() if a not in ks]
         # URI writes after the guard: any assignment to uri on a path between guard blocks and the open
@@ -202,8 +212,16 @@ def r4(ctx):
     fn = ctx.fb.fn('ebusd::RequestImpl::split')
     ctx.touch(fn)
     vals = set()
+    # the delimiter variable is the third argument of getline(stream, token, delimiter)
+    dname = None
+    for c in fn.all('CallExpr'):
+        v = fn.nodes[c]
+        if (v.get('callee') or '').endswith('getline') and len(v.get('args', [])) == 3:
+            dname = fn.ref_decl(v['args'][2])
+    if dname is None:
+        raise AnalysisBroken('C18.R4: getline(stream, token, delimiter) not found in RequestImpl::split')
     for nid, d, rhs, op, lhs in fn.assignments():
-        if d and d.endswith(':delim') and rhs is not None:
+        if d == dname and rhs is not None:
             r = fn.nodes.get(fn.strip(rhs), {})
             if r.get('k') == 'ConditionalOperator':
                 vals.add(('cond', fn.val(r['then']), fn.val(r['else'])))
